@@ -285,3 +285,101 @@ def analyse_tu(eng, cfg):
         eng.walk(f, [rule])
     return {'reports': list(rule.reports.values()), 'functions': nfun,
             'writer_exits': len(rule.writers), 'steal_functions': len(rule.steals)}
+
+
+class ShrinkRule(sym.Rule):
+    """R02.5: after shrink_to_fit, capacity() == max(size(), inline capacity)."""
+    name = 'R02.5'
+
+    def __init__(self, eng, cfg):
+        self.orc = eng.oracle
+        self.cfg = cfg
+        self.reports = {}
+        self.paths = 0
+
+    def init(self, f, eng):
+        return frozenset()
+
+    def on_event(self, rs, ev, st, f, eng):
+        if ev.kind == 'call' and ev.callee and self.orc.kind.get(ev.callee) == 'ALLOC' and ev.args and len(ev.args) >= 2:
+            return rs | {(ev.ret, ev.args[1])}
+        return rs
+
+    def on_exit(self, rs, kind, st, f, eng, rv=None):
+        if kind != 'ret':
+            return
+        this = ((('arg', 0), 1),)
+        pa = ca = sa = None
+        for a, k in eng.field_tag.items():
+            if a[2] == this:
+                if k == 0:
+                    pa = a
+                elif k == 1:
+                    ca = a
+                elif k == 2:
+                    sa = a
+        if ca is None or sa is None:
+            return
+        self.paths += 1
+        n = class_n(f)
+        cap0, size0 = atom(('init', ca)), atom(('init', sa))
+        C = st.mem.get(ca, cap0)
+        S = st.mem.get(sa, size0)
+        P = st.mem.get(pa) if pa is not None else None
+
+        def has(pred, x, y, val):
+            for (c, v) in st.conds:
+                a = cmp_atom(c)
+                if a is not None and a[1] == pred and a[2] == x and a[3] == y and v is val:
+                    return True
+            return False
+
+        def eq(x, y, val):
+            for (c, v) in st.conds:
+                a = single_atom(c)
+                if a is not None and a[0] == 'cmp' and a[1] == 'eq' and v is val:
+                    d = sym.lin_sub(x, y)
+                    if a[2] == d or a[2] == sym.lin_scale(d, -1):
+                        return True
+            return False
+        why = None
+        ok = False
+        if S != size0:
+            why = 'shrink_to_fit changes size()'
+        elif C == cap0 and (P is None or P == atom(('init', pa))):
+            ok = has('ult', L(n), cap0, False) or eq(size0, cap0, True)
+            why = 'returns without changing the capacity on a path that is neither inline nor size == capacity'
+        elif const_of(C) == n and P is not None and (P[2] == this or (n == 0 and const_of(P) == 0)):
+            ok = has('ult', L(n), size0, False)
+            why = 'moves into the inline buffer on a path without size <= inline capacity'
+        elif C == size0 and any(P == p and nn == size0 for (p, nn) in rs):
+            ok = has('ult', L(n), size0, True)
+            why = 'allocates exactly size() on a path without inline capacity < size'
+        else:
+            why = 'capacity after shrink_to_fit is neither the inline capacity nor size()'
+        bn = base_name(f.pretty)
+        dk = (f.name, ok, why if not ok else 'ok')
+        if dk in self.reports:
+            return
+        if ok:
+            self.reports[dk] = Report('R02.5', True, None, sample={'function': bn, 'result': repr(C)[:60], 'config': self.cfg.name})
+        else:
+            self.reports[dk] = Report('R02.5', False, {'function': bn, 'defect': why},
+                                      'R02.5: %s: %s - capacity() would not be max(size(), inline_capacity()) (%s)' % (bn, why, self.cfg.name),
+                                      {'function': f.pretty[:300], 'config': self.cfg.name, 'capacity': repr(C)[:200],
+                                       'conditions': [repr(c)[:150] + '=' + str(v) for c, v in st.conds][-6:]})
+
+
+_analyse_pairs = analyse_tu
+
+
+def analyse_tu(eng, cfg):   # noqa: F811
+    res = _analyse_pairs(eng, cfg)
+    sr = ShrinkRule(eng, cfg)
+    for f in irrules.gch_roots(eng):
+        head = (f.pretty or '').split('(')[0]
+        if base_name(f.pretty) == 'shrink_to_fit' and 'gch::small_vector<' in head and 'detail::' not in head:
+            eng.walk(f, [sr])
+    res['reports'] += list(sr.reports.values())
+    res['shrink_paths'] = sr.paths
+    return res
